@@ -59,7 +59,13 @@ def run(ck, prog):
             # disk read only reachable from the miss edge
             from_hit = any(d in b.reachable(t["some_target"], avoid={t["bb"]}) for d in disk)
             from_miss = all(d in b.reachable(t["none_target"], avoid={t["bb"]}) for d in disk)
-            if field and key_is_path and from_miss and not from_hit:
+            # ... and no path returns a text without having consulted the table (a cache of disk reads in front of it)
+            bypass = cfg.path_exists(b, 0, lambda x: b.term(x)["k"] == "return", avoid={t["bb"]}, include_src=True)
+            if field and key_is_path and from_miss and not from_hit and bypass is not None:
+                overlay_writers.update(w for w in field_writers(prog, imp["self"], field) if w in writers_reach)
+                why = "read_content can return without consulting the open-document table `%s` (a path around the lookup [%s])" % (
+                    field, b.where(bypass[-1]) if isinstance(bypass, (list, tuple)) and bypass else "?")
+            if field and key_is_path and from_miss and not from_hit and bypass is None:
                 # the same field is written on the didOpen/didChange path
                 wr = field_writers(prog, imp["self"], field)
                 on_path = [w for w in wr if w in writers_reach]
